@@ -17,6 +17,7 @@ import (
 	"massnet.org/mass-wallet/masswallet/ifc"
 	"massnet.org/mass-wallet/masswallet/keystore"
 	"massnet.org/mass-wallet/masswallet/txmgr"
+	"massnet.org/mass-wallet/masswallet/utils"
 
 	cache "github.com/patrickmn/go-cache"
 )
@@ -1288,7 +1289,7 @@ func (w *WalletManager) SyncedTo() (uint64, error) {
 }
 
 func (w *WalletManager) IsAddressInCurrent(addr string) (massutil.Address, bool, error) {
-	address, err := massutil.DecodeAddress(addr, w.chainParams)
+	address, err := utils.DecodeAddress(addr, w.chainParams)
 	if err != nil {
 		logging.CPrint(logging.ERROR, "failed to decode address", logging.LogFormat{
 			"err":     err,
